@@ -258,6 +258,15 @@ func c14Gen(r *vu.Rng, _ int) []string {
 	if r.Chance(1, 3) {
 		n = r.Range(2, 3)
 	}
+	// special scenarios (single request): request sent before the server's SETTINGS are seen;
+	// nil body with announced trailers
+	neverEnds := false
+	switch r.Intn(25) {
+	case 0, 1:
+		cfg.early, n = 1, 1
+	case 2:
+		neverEnds, n = true, 1
+	}
 	lines := []string{cfg.line()}
 	for i := 0; i < n; i++ {
 		last := i == n-1
@@ -293,6 +302,21 @@ func c14Gen(r *vu.Rng, _ int) []string {
 		}
 		if !rq.nilBody {
 			rq.trl = c14GenTrailers(r, true)
+		}
+		if neverEnds {
+			rq.nilBody, rq.cl, rq.body = true, 0, nil
+			rq.trl = []c14KV{{"X-Trailer-A", []string{"v"}}}
+		}
+		if cfg.early == 1 {
+			// a repeated field: its second occurrence is an index into the encoder's dynamic table
+			rq.hdr = c14AddKV(rq.hdr, c14KV{"X-Repeat", []string{"0123456789012345678901234567890123456789", "0123456789012345678901234567890123456789"}})
+			if len(rq.body) > 65535 && cfg.sws != 0 && cfg.sws < 65535 {
+				// keep the refusal deterministic: everything is sent before the server's SETTINGS
+				rq.body = rq.body[:65535]
+				if rq.cl > 0 {
+					rq.cl = 65535
+				}
+			}
 		}
 		rs := &c14Resp{idx: i,
 			status: c14Pick(r, []int{200, 200, 200, 201, 404, 500, 418}),
